@@ -153,7 +153,7 @@ type kind struct {
 	MaxDelta int
 	MinCmds  int // raft commands submitted by the leader's Store when served (execute / strong read / unified)
 	MaxCmds  int
-	Loads    int // database loads performed when served
+	Loads    int  // database loads performed when served
 	Last     bool // run after all others (may leave work behind on a node)
 
 	FollowerOnly bool // meaningless at the leader
@@ -189,31 +189,31 @@ type problem struct {
 }
 
 type obs struct {
-	Idx       int       `json:"idx"`
-	Phase     string    `json:"phase"` // probe | matrix | concurrent
-	Kind      string    `json:"kind"`
-	Node      string    `json:"node"`
-	Leader    string    `json:"leader"`
-	Redirect  bool      `json:"redirect"`
-	Pres      string    `json:"credentials"`
-	NodeAuth  bool      `json:"node_has_store"`
-	LeadAuth  bool      `json:"leader_has_store"`
-	Expect    string    `json:"expected"` // http-401 | redirect-301 | remote-401 | served-local | served-forwarded
-	Status    int       `json:"status"`
-	ServedBy  string    `json:"served_by,omitempty"`
-	Location  string    `json:"location,omitempty"`
-	Body      string    `json:"body,omitempty"`
-	Token     string    `json:"token,omitempty"`
-	Applied   int       `json:"token_rows_on_leader"`
-	Delta     int64     `json:"leader_commit_index_delta"`
-	Cmds      int64     `json:"leader_commands_submitted"`
-	Loads     int64     `json:"leader_loads"`
-	LeaderAA  []aaCall  `json:"leader_internode_checks,omitempty"`
-	Cut       bool      `json:"connection_cut_after_request_written,omitempty"`
-	Problems  []problem `json:"problems,omitempty"`
-	Inconcl   string    `json:"inconclusive,omitempty"`
-	Observed  []string  `json:"observations,omitempty"`
-	Skip      bool      `json:"-"`
+	Idx      int       `json:"idx"`
+	Phase    string    `json:"phase"` // probe | matrix | concurrent
+	Kind     string    `json:"kind"`
+	Node     string    `json:"node"`
+	Leader   string    `json:"leader"`
+	Redirect bool      `json:"redirect"`
+	Pres     string    `json:"credentials"`
+	NodeAuth bool      `json:"node_has_store"`
+	LeadAuth bool      `json:"leader_has_store"`
+	Expect   string    `json:"expected"` // http-401 | redirect-301 | remote-401 | served-local | served-forwarded
+	Status   int       `json:"status"`
+	ServedBy string    `json:"served_by,omitempty"`
+	Location string    `json:"location,omitempty"`
+	Body     string    `json:"body,omitempty"`
+	Token    string    `json:"token,omitempty"`
+	Applied  int       `json:"token_rows_on_leader"`
+	Delta    int64     `json:"leader_commit_index_delta"`
+	Cmds     int64     `json:"leader_commands_submitted"`
+	Loads    int64     `json:"leader_loads"`
+	LeaderAA []aaCall  `json:"leader_internode_checks,omitempty"`
+	Cut      bool      `json:"connection_cut_after_request_written,omitempty"`
+	Problems []problem `json:"problems,omitempty"`
+	Inconcl  string    `json:"inconclusive,omitempty"`
+	Observed []string  `json:"observations,omitempty"`
+	Skip     bool      `json:"-"`
 }
 
 type caseOut struct {
@@ -238,17 +238,17 @@ type tokInfo struct {
 }
 
 type env struct {
-	cl      *hcluster.Cluster
-	cd      caseDef
-	rec     *recorder
-	dir     string
-	tokN    int
-	tokens  map[string]*tokInfo
-	order   []string
-	ghostN  int
-	out     *caseOut
-	stuckQ  map[string]bool // nodes whose write queue is blocked by a refused batch
-	leaders map[string]bool
+	cl         *hcluster.Cluster
+	cd         caseDef
+	rec        *recorder
+	dir        string
+	tokN       int
+	tokens     map[string]*tokInfo
+	order      []string
+	ghostN     int
+	out        *caseOut
+	stuckQ     map[string]bool // nodes whose write queue is blocked by a refused batch
+	leaders    map[string]bool
 	lastLeader string
 }
 
@@ -530,8 +530,15 @@ func runCase(cd caseDef, dir string, seed int64, tier string) (out caseOut) {
 	// seeded points between the requests of the matrix (own stream: the matrix order
 	// does not depend on them) and once more after its last leadership-moving part
 	brnd := vc.Rand(uint64(cd.No) + 9000)
+	nBursts := 0
 	for ji, jb := range jobs {
 		if ji > 0 && ji <= nFirst && (ji == nFirst || brnd.IntN(5) == 0) {
+			// every twelfth burst follows a request that the follower abandoned because
+			// the leader was slow
+			if nBursts%12 == 1 {
+				idx = e.slowProbe(idx, nBursts/12)
+			}
+			nBursts++
 			idx = e.burst(idx, brnd)
 		}
 		ld := cl.WaitLeader(90 * time.Second)
@@ -610,6 +617,20 @@ func (e *env) record(o obs) {
 			e.out.Samples = append(e.out.Samples, o)
 		}
 	}
+}
+
+// stalePoolError recognises the transport errors a write to, or read from, a
+// connection closed by the remote end produces.
+func stalePoolError(body string) bool {
+	if !strings.Contains(body, "protobuf") {
+		return false
+	}
+	for _, m := range []string{"broken pipe", "connection reset by peer", "use of closed network connection", "EOF"} {
+		if strings.Contains(body, m) {
+			return true
+		}
+	}
+	return false
 }
 
 func hdr(p pres) map[string]string {
@@ -784,6 +805,16 @@ func (e *env) doRequest(idx int, phase string, jb job, cut bool) (o obs) {
 		// reads are repeatable: a failing backup (snapshot in progress, ...) is retried
 		e.cnt("read-retried-after-500", 1)
 		time.Sleep(300 * time.Millisecond)
+		r = cl.Do(n, k.Method, path, body, h)
+	}
+	// Inter-node calls other than execute/query/request/load are made once, on a
+	// pooled connection, without the client's retry: when the leader has closed
+	// that connection (30 s idle limit of its inter-node service) the follower
+	// answers 500 with the transport error. That is outside this property (it
+	// speaks about writes, strong reads and unified requests); the pool has dropped
+	// the dead connection, so the request is sent once more and that answer judged.
+	for try := 0; try < 10 && !cut && o.Token == "" && r.Err == nil && r.Status == 500 && stalePoolError(string(r.Body)); try++ {
+		e.cnt("resent-after-stale-pooled-connection", 1)
 		r = cl.Do(n, k.Method, path, body, h)
 	}
 	if cut {
